@@ -1,6 +1,8 @@
-//! C08: not implemented yet.
-use serde_json::{json, Value};
+//! C08: same-size replacement locality.  Same case format and executor as C07 (see c07.rs):
+//! the orchestrator sends two equal-length stores as consecutive operations and diffs the outputs
+//! against the object locations reported after each step.
+use serde_json::Value;
 
-pub fn run(_case: &Value) -> Value {
-    json!({"r": "unimplemented"})
+pub fn run(case: &Value) -> Value {
+    crate::c07::exec(case)
 }
